@@ -110,6 +110,71 @@ fn hist_is_end(o: &ObsQ, end: State) -> bool {
         None => false,
     }
 }
+
+/// C15 over a real history: GetterFromHistory built over the real MotionProfile in each of its constructor forms (and after set_delta /
+/// set_time) must return, at clock value `now`, the profile's command at (now + offset) restamped with `now`: the kind the phase automaton
+/// predicts, the bits of a direct History::get on a twin profile.
+fn adapter_case(case: &Value, c: &C, which: usize) -> Bad {
+    if case["panic"].as_bool().unwrap() {
+        return None;
+    }
+    let mv = &case["mv"];
+    let (mut p, twin) = match (mk_profile(mv, c, false, false), mk_profile(mv, c, false, false)) {
+        (Ok(a), Ok(b)) => (a, b),
+        _ => return None, // constructor outcomes are C06 / C07's business
+    };
+    let clock = ScriptedClock::new();
+    let base: i64 = [0i64, 1_000_000_007, -77_000_000_001, 1i64 << 50][which % 4];
+    let start: i64 = [0i64, 5_000_000_000, -3][which % 3];
+    clock.set(Ok(Time(base)));
+    let form = which % 6;
+    // offset = history time - clock time
+    let built = catch(|| match form {
+        0 => Ok((GetterFromHistory::new_no_delta(&mut p, clock.getter.clone()), 0i64)),
+        1 => GetterFromHistory::new_start_at_zero(&mut p, clock.getter.clone()).map(|g| (g, -base)),
+        2 => GetterFromHistory::new_custom_start(&mut p, clock.getter.clone(), Time(start)).map(|g| (g, start - base)),
+        3 => Ok((GetterFromHistory::new_custom_delta(&mut p, clock.getter.clone(), Time(start - base)), start - base)),
+        4 => {
+            let mut g = GetterFromHistory::new_no_delta(&mut p, clock.getter.clone());
+            g.set_delta(Time(7 - base));
+            Ok((g, 7 - base))
+        }
+        _ => {
+            let mut g = GetterFromHistory::new_custom_delta(&mut p, clock.getter.clone(), Time(123));
+            g.set_time(Time(start)).map(|_| (g, start - base))
+        }
+    });
+    let (g, offset) = match built {
+        Ok(Ok(x)) => x,
+        other => return Some(("adapter".into(), format!("constructing the history adapter (form {form}) failed"), json!("an adapter"), json!(format!("{:?}", other.map(|r| r.map(|_| ()))))))
+    };
+    for q in case["queries"].as_array().unwrap() {
+        if s(q, "tag") != "" {
+            continue; // i64 extremes would overflow now + offset
+        }
+        let t = i(q, "h") * (c.tick_ns() / 2) + i(q, "e"); // history time
+        let now = t - offset;
+        clock.set(Ok(Time(now)));
+        let got: Output<Command, E> = match catch(|| g.get()) {
+            Ok(o) => o,
+            Err(m) => return Some(("adapter".into(), format!("GetterFromHistory::get panicked at history time {t} ns"), q.clone(), json!(m))),
+        };
+        let direct = History::<Command, E>::get(&twin, Time(t));
+        let kind = i(q, "mode");
+        let ok = match (&got, direct) {
+            (Ok(None), None) => kind == -1,
+            (Ok(Some(d)), Some(e)) => d.time == Time(now) && cmd_kind(d.value) == kind && cmd_kind(e.value) == kind && f32::from(d.value).to_bits() == f32::from(e.value).to_bits(),
+            _ => false,
+        };
+        if !ok {
+            return Some(("adapter".into(), format!("GetterFromHistory (form {form}, offset {offset} ns) over the motion profile at history time {t} ns, clock {now} ns"),
+                         json!({"stamp_ns": now, "kind": kind, "value": direct.map(|e| f32::from(e.value))}),
+                         json!(match got { Ok(Some(d)) => json!({"stamp_ns": d.time.0, "kind": cmd_kind(d.value), "value": f32::from(d.value)}), Ok(None) => json!("absent"), Err(_) => json!("error") })));
+        }
+    }
+    None
+}
+
 fn replay_case(case: &Value, c: &C, mode: &str, flip_limits: bool) -> Bad {
     let mv = &case["mv"];
     let end_state = State::new_raw(c.pos(&mv["xe"]) as f32, c.vel(&mv["ve"]) as f32, c.acc(&mv["ae"]) as f32);
@@ -422,7 +487,8 @@ fn main() {
         for (ci, c) in concs.iter().enumerate() {
             rep.count("replays", 1);
             rep.count("queries", case["queries"].as_array().unwrap().len() as u64);
-            if let Some((class, what, exp, got)) = replay_case(&case, c, &mode, ci % 2 == 1) {
+            let r = if mode == "adapter" { adapter_case(&case, c, ln + ci) } else { replay_case(&case, c, &mode, ci % 2 == 1) };
+            if let Some((class, what, exp, got)) = r {
                 rep.mismatch(json!({"line": ln, "class": class, "what": what, "exp": exp, "got": got, "conc": c.json()}));
                 break;
             }
